@@ -69,6 +69,7 @@ def run(ctx):
     hsl_writeset(ctx)
     hsl_percent_range(ctx)
     hue_formula(ctx)
+    saturation_guard(ctx)
     converters(ctx)
     hue_units(ctx)
     clamps(ctx)
@@ -901,6 +902,44 @@ def hue_formula(ctx):
             raise AnalysisError("R13.6", "Color.hue getter: branch formula not interpreted (%s)" % e)
         ctx.ob("R13.6", "Color.hue:getter[%s largest]" % {"r": "red", "g": "green", "b": "blue"}[which], got == want[which], "%s vs %s" % (got, want[which]), asg.lineno,
                "hue of a colour whose largest channel is this one: the offset is 0, 1/3, 2/3 turn plus (next - previous channel)/6D; swapped operands mirror the hue about the sector centre")
+
+
+def saturation_guard(ctx):
+    """The saturation getter divides by max + min or by 2 - max - min.  Both vanish for an achromatic colour at the ends of the
+    scale (black: max + min = 0; white: 2 - max - min = 0), so the achromatic case - max == min, whatever its level - must leave
+    with 0 before either division."""
+    from ..flow import dominated
+
+    fn = ctx.m.cls("Color", "R13.6").getters.get("saturation")
+    ctx.need(fn is not None, "R13.6", "Color.saturation getter not found")
+    binds = {}
+    for st in ast.walk(fn):
+        if isinstance(st, ast.Assign) and len(st.targets) == 1 and isinstance(st.targets[0], ast.Name):
+            binds[st.targets[0].id] = st.value
+    role = {}
+    for nm, v in binds.items():
+        if isinstance(v, ast.Call) and isinstance(v.func, ast.Name) and v.func.id in ("min", "max") and len(v.args) == 3:
+            role[nm] = v.func.id
+    delta = [nm for nm, v in binds.items() if isinstance(v, ast.BinOp) and isinstance(v.op, ast.Sub) and isinstance(v.left, ast.Name) and isinstance(v.right, ast.Name)
+             and role.get(v.left.id) == "max" and role.get(v.right.id) == "min"]
+
+    def chromatic(test, positive):
+        # the fact "max != min": established when `max == min` (or delta == 0) is false
+        if isinstance(test, ast.Compare) and len(test.ops) == 1 and isinstance(test.ops[0], (ast.Eq, ast.NotEq)):
+            l, r = test.left, test.comparators[0]
+            eq = isinstance(test.ops[0], ast.Eq)
+            if isinstance(l, ast.Name) and isinstance(r, ast.Name) and {role.get(l.id), role.get(r.id)} == {"min", "max"}:
+                return positive != eq
+            for a, b in ((l, r), (r, l)):
+                if isinstance(a, ast.Name) and a.id in delta and isinstance(b, ast.Constant) and b.value == 0:
+                    return positive != eq
+        return False
+
+    divs = [b for b in ast.walk(fn) if isinstance(b, ast.BinOp) and isinstance(b.op, ast.Div) and not isinstance(b.right, ast.Constant)]
+    ctx.need(divs, "R13.6", "Color.saturation: divisions not found")
+    bad = [d for d in divs if not dominated(d, fn, chromatic)]
+    ctx.ob("R13.6", "Color.saturation:getter[achromatic colours leave before the division]", not bad, "; ".join("line %d: %s" % (d.lineno, ast.unparse(d)[:40]) for d in bad), fn.lineno,
+           "white has max + min = 2: `delta / (2.0 - max - min)` is 0.0 / 0.0 - reading .saturation or .hsl, or writing hue / saturation / lightness of any white raises ZeroDivisionError")
 
 
 def hsl_percent_range(ctx):
